@@ -4,6 +4,7 @@ package udp
 
 import (
 	"bytes"
+	"errors"
 	"fmt"
 	"net"
 	"net/netip"
@@ -14,6 +15,7 @@ import (
 
 	"github.com/talostrading/sonic"
 	"github.com/talostrading/sonic/multicast"
+	"github.com/talostrading/sonic/sonicerrors"
 	"pgregory.net/rapid"
 	"verif/internal/evid"
 	"verif/internal/known"
@@ -194,7 +196,7 @@ func (r mpReader) name() string { return "UDPPeer" }
 
 func TestC12_DatagramBoundaries(t *testing.T) {
 	rec := evid.For("C12")
-	rec.SetRule("rapid: (A) PacketConn and multicast.UDPPeer on 127.0.0.1: bursts of 1..80 datagrams (consumed one read at a time from top level, or by a chain of reads re-armed from each completion with a fresh buffer, which crosses the dispatch limit) of 1..1372 bytes (and up to 60000) from 1..3 raw senders, reads with buffers smaller/equal/larger than the datagram, issued before (deferred) or after (inline) arrival; writes to raw receivers, singly or as a chain of 34..80 writes re-issued from their completions with varying destinations; oracle: every datagram completes exactly one read with n=min(len,buf), identical bytes, the sender's ip:port (getsockname of the raw sender), per-sender order; every write is received exactly once with the caller's bytes; (B) UDPPeer bind forms {'', ':0', ':p', ifaddr:p, 127.0.0.1:p, 224.0.x.y:p}: LocalAddr()==getsockname; (C) membership histories on eth0: Join/JoinOn/JoinSource/Leave/LeaveSource/BlockSource/UnblockSource/SetLoop/SetTTL/SetOutboundIPv4/SetAsyncReadBuffer interleaved with multicast datagrams to joined and non-joined groups from a raw sender (source = interface address) while harness witness sockets keep every group joined on the host; a membership model (any-source with blocked set / include set) predicts delivered or not; non-delivery is decided by a unicast fence datagram that must be the next one read; getters TTL/Loop/Outbound/LocalAddr compared with getsockopt/getsockname after every call; non-trivial = >=2 membership changes with traffic after each, or a truncating read, or a buffer swap; distinct = hash of the history")
+	rec.SetRule("rapid: (A) PacketConn and multicast.UDPPeer on 127.0.0.1: bursts of 1..80 datagrams (consumed one read at a time from top level, or by a chain of reads re-armed from each completion with a fresh buffer, which crosses the dispatch limit) of 1..1372 bytes (and up to 60000) from 1..3 raw senders, reads with buffers smaller/equal/larger than the datagram, issued before (deferred) or after (inline) arrival; in a third of the rounds with a read pending, a second object of the same IO completes earlier in the same poll batch and takes the datagram with the blocking API, so that the pending read is woken for nothing, has to wait again and must complete with the next datagram; writes to raw receivers, singly or as a chain of 34..80 writes re-issued from their completions with varying destinations; oracle: every datagram completes exactly one read with n=min(len,buf), identical bytes, the sender's ip:port (getsockname of the raw sender), per-sender order; every write is received exactly once with the caller's bytes; (B) UDPPeer bind forms {'', ':0', ':p', ifaddr:p, 127.0.0.1:p, 224.0.x.y:p}: LocalAddr()==getsockname; (C) membership histories on eth0: Join/JoinOn/JoinSource/Leave/LeaveSource/BlockSource/UnblockSource/SetLoop/SetTTL/SetOutboundIPv4/SetAsyncReadBuffer interleaved with multicast datagrams to joined and non-joined groups from a raw sender (source = interface address) while harness witness sockets keep every group joined on the host; a membership model (any-source with blocked set / include set) predicts delivered or not; non-delivery is decided by a unicast fence datagram that must be the next one read; getters TTL/Loop/Outbound/LocalAddr compared with getsockopt/getsockname after every call; non-trivial = >=2 membership changes with traffic after each, or a truncating read, or a buffer swap; distinct = hash of the history")
 	rec.Assume("loopback delivery keeps per-sender order; all local multicast senders have the interface address as source, a second source is an address that never sends (10.9.9.9); TTL 1, nothing leaves the sandbox")
 	vt.Check(t, 300, func(rt *rapid.T) {
 		ioc, err := sonic.NewIO()
@@ -242,6 +244,47 @@ func TestC12_DatagramBoundaries(t *testing.T) {
 		tag := 0
 		var problem string
 		reading := false
+		// syncOnce takes one queued datagram with the blocking API and checks it like an asynchronous read; false = would block
+		syncOnce := func(bufLen int) bool {
+			buf := make([]byte, bufLen)
+			n, from, err := rd.syncRead(buf)
+			if errors.Is(err, sonicerrors.ErrWouldBlock) || errors.Is(err, syscall.EAGAIN) {
+				return false
+			}
+			if err != nil {
+				problem = fmt.Sprintf("synchronous read failed: %v", err)
+				return true
+			}
+			var src *rawUDP
+			for _, s := range senders {
+				if s.addrString() == from {
+					src = s
+				}
+			}
+			if src == nil || len(queues[src]) == 0 {
+				problem = fmt.Sprintf("synchronous read reports sender %q with nothing outstanding from it", from)
+				return true
+			}
+			want := queues[src][0]
+			queues[src] = queues[src][1:]
+			wn := len(want)
+			if wn > len(buf) {
+				wn = len(buf)
+				truncated = true
+			}
+			if n != wn || n > len(buf) || !bytes.Equal(buf[:n], want[:wn]) {
+				problem = fmt.Sprintf("synchronous read into a %d-byte buffer returned n=%d %x.., the next datagram of %s has %d bytes %x.. (a longer datagram is truncated to the buffer and n is the number of bytes delivered)", len(buf), n, head(buf[:min(max(n, 0), len(buf))]), from, len(want), head(want))
+			}
+			trace = append(trace, fmt.Sprintf("syncread(buf=%d)=%d", len(buf), n))
+			return true
+		}
+		var aux sonic.PacketConn
+		defer func() {
+			if aux != nil {
+				_ = aux.Close()
+			}
+		}()
+		spurious := false
 		rounds := rapid.IntRange(1, 6).Draw(rt, "rounds")
 		for r := 0; r < rounds && problem == ""; r++ {
 			// optionally arm a read before anything arrives
@@ -309,6 +352,51 @@ func TestC12_DatagramBoundaries(t *testing.T) {
 			if armFirst && total == 0 && !reading {
 				issueRead()
 			}
+			if reading && rapid.IntRange(0, 2).Draw(rt, "stolen") == 0 {
+				// Readiness without data: another object of the same IO becomes ready in the same poll batch, and its
+				// completion takes the datagram the pending read was woken for with the blocking API. The pending read
+				// finds nothing, must wait again, and must then complete with the next datagram like any other read.
+				if aux == nil {
+					if aux, err = sonic.NewPacketConn(ioc, "udp", "127.0.0.1:0"); err != nil {
+						rt.Fatalf("INFRA: NewPacketConn: %v", err)
+					}
+				}
+				_, auxPort, _ := sysx.LocalAddr4(aux.RawFd())
+				auxRan := false
+				aux.AsyncReadFrom(make([]byte, 16), func(err error, _ int, _ net.Addr) {
+					auxRan = true
+					if err != nil {
+						problem = fmt.Sprintf("INFRA: auxiliary read failed: %v", err)
+						return
+					}
+					if reading && syncOnce(bufLen) {
+						spurious = true
+						trace = append(trace, "(taken from the completion of another object in the same poll batch; the pending read was woken for nothing)")
+					}
+				})
+				s := senders[0]
+				tag++
+				p := payload(tag, rapid.IntRange(1, 300).Draw(rt, "stolenLen"))
+				if err := s.sendTo([]byte("x"), lo, auxPort); err != nil {
+					rt.Fatalf("INFRA: sendto: %v", err)
+				}
+				if err := s.sendTo(p, lo, port); err != nil {
+					rt.Fatalf("INFRA: sendto: %v", err)
+				}
+				queues[s] = append(queues[s], p)
+				trace = append(trace, fmt.Sprintf("send(s0,%d)", len(p)))
+				sysx.WaitReadable(aux.RawFd(), 1000)
+				sysx.WaitReadable(rd.rawFd(), 1000)
+				for i := 0; i < 20 && !auxRan; i++ {
+					_, _ = ioc.PollOne()
+				}
+				if !auxRan {
+					rt.Fatalf("INFRA: the auxiliary read never completed")
+				}
+				if strings.HasPrefix(problem, "INFRA") {
+					rt.Fatalf("%s", problem)
+				}
+			}
 			burst := rapid.OneOf(rapid.IntRange(1, 20), rapid.IntRange(30, 80)).Draw(rt, "burst")
 			for i := 0; i < burst; i++ {
 				s := senders[rapid.IntRange(0, ns-1).Draw(rt, "s")]
@@ -337,33 +425,12 @@ func TestC12_DatagramBoundaries(t *testing.T) {
 					bufLen = rapid.SampledFrom([]int{1, 7, 100, 1372, 1500, 65535}).Draw(rt, "buf2")
 					if rapid.IntRange(0, 3).Draw(rt, "syncRead") == 0 && sysx.WaitReadable(rd.rawFd(), 0) {
 						// the blocking API on a queued datagram
-						buf := make([]byte, bufLen)
-						n, from, err := rd.syncRead(buf)
-						if err != nil {
-							problem = fmt.Sprintf("synchronous read failed: %v", err)
+						if !syncOnce(bufLen) && problem == "" {
+							problem = "synchronous read would block with a datagram queued"
+						}
+						if problem != "" {
 							break
 						}
-						var src *rawUDP
-						for _, s := range senders {
-							if s.addrString() == from {
-								src = s
-							}
-						}
-						if src == nil || len(queues[src]) == 0 {
-							problem = fmt.Sprintf("synchronous read reports sender %q with nothing outstanding from it", from)
-							break
-						}
-						want := queues[src][0]
-						queues[src] = queues[src][1:]
-						wn := len(want)
-						if wn > len(buf) {
-							wn = len(buf)
-							truncated = true
-						}
-						if n != wn || n > len(buf) || !bytes.Equal(buf[:n], want[:wn]) {
-							problem = fmt.Sprintf("synchronous read into a %d-byte buffer returned n=%d %x.., the next datagram of %s has %d bytes %x.. (a longer datagram is truncated to the buffer and n is the number of bytes delivered)", len(buf), n, head(buf[:min(max(n, 0), len(buf))]), from, len(want), head(want))
-						}
-						trace = append(trace, fmt.Sprintf("syncread(buf=%d)=%d", len(buf), n))
 						continue
 					}
 					issueRead()
@@ -487,6 +554,9 @@ func TestC12_DatagramBoundaries(t *testing.T) {
 		}
 		if deferredRead {
 			cls = append(cls, "read-armed-before-arrival")
+		}
+		if spurious {
+			cls = append(cls, "pending-read-woken-for-nothing")
 		}
 		rec.Case("A|"+rd.name()+"|"+strings.Join(trace, ","), truncated, cls, map[string]any{"object": rd.name(), "trace": trace})
 	})
